@@ -1010,7 +1010,15 @@ def _run_toy(case):
         detail = '\n'.join(text)
     compare_placements(case, force_field, detail)
     molecule = build_molecule(case['mol'], force_field)
-    result = do_links.DoLinks().run_molecule(molecule)
+    processor = do_links.DoLinks()
+    used_before = len(case['mol']['nodes']) % 2 == 0
+    if used_before:
+        # the processor object and the force field (its links) have served a molecule before: the same one, built again
+        try:
+            processor.run_molecule(build_molecule(case['mol'], force_field))
+        except Exception:  # pylint: disable=broad-except
+            pass    # the same input is judged below
+    result = processor.run_molecule(molecule)
     model, reports = ref.apply_links(case['mol'], case['links'])
     justified = set()
     for report in reports:
@@ -1264,7 +1272,13 @@ def _run_shipped(case):
         if not all(isinstance(p, str) for p in params):
             raise HarnessError('block interaction with a non-text parameter')
     molecule = build_molecule(mol, data['ff'])
-    result = do_links.DoLinks().run_molecule(molecule)
+    processor = do_links.DoLinks()
+    if len(mol['nodes']) % 2 == 0:
+        try:
+            processor.run_molecule(build_molecule(mol, data['ff']))
+        except Exception:  # pylint: disable=broad-except
+            pass    # the same input is judged below
+    result = processor.run_molecule(molecule)
     model = ref.Model(mol)
     reports = []
     for index, link in enumerate(data['links']):
